@@ -156,6 +156,27 @@ pub open spec fn lr_iter<S, T, R, N, A: ParserAction<S, R>>(tb: Tables<S, T, R, 
         }
     }
 }
+/// the stack a parse starts with: just the start state
+pub open spec fn is_start_stack<S, T, R, N, A>(tb: Tables<S, T, R, N, A>, st: Seq<S>) -> bool { st.len() == 1 && st[0] == tb.start }
+/// C01 / C04 / C17 at the API, for tables without recovery and fallible actions: `res` is the outcome of the spec LR
+/// machine started in `st0` on the whole token stream `r0` (classified as `toks`); `loc0` is the location reported at
+/// end of input when no token was read
+pub open spec fn api_outcome<S, T, R, N, A: ParserAction<S, R>, L, K, E, V>(tb: Tables<S, T, R, N, A>, toks: Seq<Tk<T>>, st0: Seq<S>,
+        r0: Seq<Result<(L, K, L), PErr<L, K, E>>>, loc0: L, res: Result<V, PErr<L, K, E>>) -> bool {
+    match res {
+        Ok(_) => lr_stops(tb, toks, st0, 0, Out::Accepted) && all_ok(r0, r0.len() as int),
+        Err(e) => {
+            ||| exists|p: int| 0 <= p < r0.len() && #[trigger] lr_stops(tb, toks, st0, 0, Out::StreamErr(p)) && r0[p] == Err::<(L, K, L), PErr<L, K, E>>(e)
+            ||| (match e {
+                    PErr::UnrecognizedToken { token, expected } =>
+                        exists|p: int| 0 <= p < r0.len() && #[trigger] lr_stops(tb, toks, st0, 0, Out::UnrecTok(p)) && r0[p] == Ok::<(L, K, L), PErr<L, K, E>>(token),
+                    PErr::UnrecognizedEof { location, expected } => lr_stops(tb, toks, st0, 0, Out::UnrecEof) && all_ok(r0, r0.len() as int)
+                        && location == (if r0.len() == 0 { loc0 } else { r0[r0.len() - 1]->Ok_0.2 }),
+                    _ => false,
+                })
+        },
+    }
+}
 /// the input `accepts` simulates: the single lookahead token, or nothing at end of input
 pub open spec fn one_tok<T>(o: Option<T>) -> Seq<Tk<T>> {
     match o { Some(i) => seq![Tk::Idx(i)], None => Seq::<Tk<T>>::empty() }
